@@ -21,7 +21,7 @@ TianWater == ("model" :> "tian water content") @@ ("compositions" :> <<1>>) @@ (
 
 (* "late" is listed after the slab and heats part of it: the slab's bound-water model reads the temperature of the
    finished world (600 + 400 K, where the parameterisation is sensitive), so one property depends on another one *)
-Features(sph) ==
+Core(sph) ==
   << Area("continental plate", "cont", RectU(sph, 0, 0, 500, 500), 0, 200*Km,
           <<TUniform(150, "replace")>>, <<CUniform(<<0>>, "replace")>>,
           <<GUniform(<<0, 1>>, <<Mat(1), Mat(10)>>, <<Dec(3,-1), -1>>)>>, <<VUniform(<<1, 2, 3>>)>>),
@@ -41,9 +41,10 @@ Features(sph) ==
      Line("fault", "fault", <<XY(sph,300,-100), XY(sph,300,600)>>, XY(sph,0,0), 0, 600*Km,
           <<Segment(200*Km, <<50*Km>>, <<0>>, <<90>>)>>,
           <<TUniform(700, "replace")>>, <<CUniform(<<4>>, "replace")>>,
-          <<>>, <<VUniform(<<2, 2, 2>>)>>),
-     Area("mantle layer", "late", RectU(sph, 750, 200, 900, 450), 100*Km, 200*Km,
-          <<TUniform(400, "add")>>, <<>>, <<>>, <<>>) >>
+          <<>>, <<VUniform(<<2, 2, 2>>)>>) >>
+Late(sph) == Area("mantle layer", "late", RectU(sph, 750, 200, 900, 450), 100*Km, 200*Km,
+                  <<TUniform(400, "add")>>, <<>>, <<>>, <<>>)
+Features(sph) == Core(sph) \o <<Late(sph)>>
 
 
 (* a cooling oceanic plate north of everything else: its temperature depends continuously on the
@@ -55,5 +56,5 @@ Cooling(sph) ==
          @@ ("ridge coordinates" :> << <<XY(sph, -300, 400), XY(sph, 100, 1200)>> >>) >>,
        <<CUniform(<<5>>, "replace")>>, <<>>, <<VUniform(<<3, -4, 12>>)>>)
 
-KSFeatures(sph) == Features(sph) \o <<Cooling(sph)>>
+KSFeatures(sph) == Core(sph) \o <<Cooling(sph), Late(sph)>>     \* positions 1..7 are addressed by Parse.tla
 =============================================================================
